@@ -101,6 +101,14 @@ func wrap1(l *zerolog.Logger, mech, k int) {
 		_, ln2 := zzverif.Here()
 		lineW1 = ln2 + 2
 		l.Info().CallerSkipFrame(k).Msg("m")
+	case 3: // the skip count accumulates over several CallerSkipFrame calls (helpers each add theirs)
+		_, ln2 := zzverif.Here()
+		lineW1 = ln2 + 2
+		l.Info().CallerSkipFrame(k - k/2).CallerSkipFrame(k / 2).Caller().Msg("m")
+	case 4:
+		_, ln2 := zzverif.Here()
+		lineW1 = ln2 + 2
+		l.Info().CallerSkipFrame(k - k/2).CallerSkipFrame(k / 2).Msg("m")
 	}
 }
 
@@ -113,13 +121,18 @@ func wrap2(l *zerolog.Logger, mech, k int) {
 // CallerSkipFrame(k) / Caller(k) / CallerWithSkipFrameCount(2+k) move the site exactly k frames up.
 func VH_C19_skip_frames() {
 	capture()
-	mech := zzverif.Choice(4)
+	mech := zzverif.Choice(6)
 	k := zzverif.Choice(3)
 	base := zerolog.New(&sink{})
 	var l zerolog.Logger
+	wmech := mech
 	switch mech {
 	case 0, 1:
 		l = base
+	case 4:
+		l, wmech = base, 3
+	case 5:
+		l, wmech = base.With().Caller().Logger(), 4
 	case 2:
 		l = base.With().Caller().Logger()
 	case 3:
@@ -136,7 +149,7 @@ func VH_C19_skip_frames() {
 		lineH = ln2 + 2
 		wrap2(&l, 2, 0)
 	} else {
-		wrap2(&l, mech, k)
+		wrap2(&l, wmech, k)
 	}
 	want := []int{lineW1, lineW2, lineH}[k]
 	zzverif.Assert(gotCalls == 1, "caller field computed once")
